@@ -713,6 +713,29 @@ func genC10(cw *caseWriter, seed uint64, tier string) {
 			}
 		}
 	}
+	// … and through the jl command: a column declared with every NAME the descriptor language has for a raw type
+	// (byte, rune, time.Time, json.Number, []byte … spelled as the registry spells them), fed with a value that the
+	// raw type refuses or converts: the column is built with the raw type the name stands for
+	if jlBin() != "" && localIsUTC() {
+		nameTy := map[string]string{"int": "int", "int64": "i64", "int32": "i32", "int16": "i16", "int8": "i8", "uint": "uint", "uint64": "u64", "uint32": "u32", "uint16": "u16", "uint8": "u8",
+			"float64": "f64", "float32": "f32", "bool": "bool", "byte": "u8", "rune": "i32", "string": "str", "[]byte": "bytes", "time.Time": "time", "json.Number": "num"}
+		for _, name := range jlTypeNames {
+			ty := nameTy[name]
+			for _, f := range []string{"numeric", "string", "timestamp", "auto", "binary"} {
+				for _, v := range []string{`300`, `-1`, `"2021-09-24T21:21:00+05:30"`, `"abc"`, `"AQ=="`, `1.5`, `true`, `4294967296`} {
+					eff := []colDesc{{name: "c", format: f, ty: ty}}
+					line := []byte(`{"c":` + v + `}`)
+					ext := map[string]string{}
+					extForJSON(line, ext)
+					desc := f + "(" + name + ")"
+					args := []string{"-t", inlineOf([]jlCol{{name: "c", in: desc, out: desc}})}
+					out := runJlOnce(args, line)
+					cw.count("line-jl:" + strings.SplitN(out, " ", 2)[0])
+					cw.emit("C10 via jl "+strings.Join(args, " ")+" | "+string(line), true, "line", "C10", descStr(eff), descStr(eff), hxs(string(line)), extStr(ext), out)
+				}
+			}
+		}
+	}
 	cw.extra["exhaustive"] = false
 }
 
